@@ -1,5 +1,6 @@
 """Sweeps for C01, C02, C09-C19 (statement-level oracles on the real code)."""
 import calendar, collections, copy, itertools, json, math, os, random, re, subprocess, sys, threading
+from qa import samp
 from datetime import date, datetime, timedelta
 import grammar as G
 from realparse import parse_many, T, I, _init, to_ts
@@ -233,7 +234,7 @@ def c09_expressions(rng, n_auto):
     from ctparse.time.auto_corpus import corpus as ac
     P = lambda s: tuple(datetime.strptime(s, "%Y-%m-%dT%H:%M").timetuple()[:5]) + (0,)
     ex = [(t, P(tss)) for _, tss, tests in corpus for t in tests]
-    ex += rng.sample([(t, P(tss)) for _, tss, tests in ac for t in tests], n_auto)
+    ex += samp(rng, [(t, P(tss)) for _, tss, tests in ac for t in tests], n_auto)
     ts0 = (2018, 3, 7, 12, 43, 0)
     ex += [(t, ts0) for t in ["8pm", "9-5", "11 to 1", "from 5pm - 7pm", "von 9 bis 11 uhr", "10", "tomorrow 8", "morgen 9", "friday 11", "am 3.4. um 7", "3 Feb 2020", "monday", "5pm - 7pm",
                                "tomorrow 5pm", "12.12.2020 8 uhr", "in the morning", "17:30", "heute 14 uhr"]]
@@ -267,8 +268,8 @@ def c09_expressions(rng, n_auto):
     must = []
     for ch in sorted({c for w in na for c in w if ord(c) > 127}):
         ws = [w for w in na if ch in w]
-        must += rng.sample(ws, min(2, len(ws)))
-    pick = sorted(set(must) | set(na if len(na) <= 40 else rng.sample(na, 40)))
+        must += samp(rng, ws, min(2, len(ws)))
+    pick = sorted(set(must) | set(na if len(na) <= 40 else samp(rng, na, 40)))
     for w in pick:
         for form in ("%s", "%s tage", "für %s minuten", "morgen %s", "%s 8 uhr", "am %s"):
             ex.append((form % w, ts0))
@@ -438,7 +439,7 @@ def sweep_c11(rng, tier):
     from ctparse.time.corpus import corpus
     from ctparse.time.auto_corpus import corpus as ac
     P = lambda s: tuple(datetime.strptime(s, "%Y-%m-%dT%H:%M").timetuple()[:5]) + (0,)
-    ex = [(t, P(tss)) for _, tss, tests in corpus for t in tests] + rng.sample([(t, P(tss)) for _, tss, tests in ac for t in tests], 400 if tier == "thorough" else 60)
+    ex = [(t, P(tss)) for _, tss, tests in corpus for t in tests] + samp(rng, [(t, P(tss)) for _, tss, tests in ac for t in tests], 400 if tier == "thorough" else 60)
     ex += [(t, (2018, 3, 7, 12, 43, 0)) for t in ["5pm - 7pm", "12.12.2020 - 14.12.2020", "übermorgen 5pm", "5. märz", "nächste woche freitag", "in fünf tagen", "für zwölf tage", "8 uhr - 9 uhr", "früh am morgen", "spätestens morgen", "dreißig tage"]]
     cases = []
     nrun = 0
@@ -484,7 +485,7 @@ def sweep_c11(rng, tier):
             k += 1
     lw = sorted(lw)
     if tier != "thorough" and len(lw) > 160:
-        lw = rng.sample(lw, 160) + [w for w in lw if w in ("five", "1sten", "august", "stunden", "first", "gestern")]
+        lw = samp(rng, lw, 160) + [w for w in lw if w in ("five", "1sten", "august", "stunden", "first", "gestern")]
     for w in lw:
         x = w
         for a, b in LIG: x = x.replace(a, b)
@@ -588,7 +589,7 @@ def sweep_c12(rng, tier):
                 break
     # 2. interleavings of two streams (all merges of their step sequences for short ones, random otherwise)
     pairs = [(a, b) for a in C12_POOL[:8] for b in C12_POOL[:8] if a is not b]
-    for (ta, ka), (tb, kb) in (pairs if tier == "thorough" else rng.sample(pairs, 10)):
+    for (ta, ka), (tb, kb) in (pairs if tier == "thorough" else samp(rng, pairs, 10)):
         la, lb = len(ref[ta]), len(ref[tb])
         scheds = []
         if la + lb <= 8:
@@ -702,7 +703,7 @@ def sweep_c12(rng, tier):
         _fr = ["zwei", "abends", "am Dienstag", "in the morning", "12 am", "next week", "5th", "tomorrow", "8pm", "friday", "morgen", "um 8", "at noon", "heute", "3 days", "for 2 hours", "monday",
                "5.5.", "may", "2019", "8 uhr", "early", "late", "night", "9-5", "von 9 bis 11", "17:30", "half past 3", "viertel vor 4", "12.12.2020", "next friday", "this evening", "first", "last", "eom",
                "übermorgen", "yesterday", "1730", "3 o'clock", "midnight", "until", "before", "nach", "7.30 a.m.", "dec 24", "31/12/2019", "sonntag", "thu", "quarter to nine", "half an hour"]
-        cold2 = [" ".join(rng.sample(_fr, rng.randint(2, 3))) for _ in range(3)]
+        cold2 = [" ".join(samp(rng, _fr, rng.randint(2, 3))) for _ in range(3)]
         ls = _Lockstep(2, period, lag)
         res2 = [None, None]; err2 = []
 
@@ -911,7 +912,7 @@ def c13_text(job):
         # the single-result call under a timeout returns the best so far or a result without resolution, never raises
         C = sys.modules["ctparse.ctparse"]
         import ctparse.timers as TM
-        for deadline in rng.sample(range(1, reads + 1), min(6, reads)):
+        for deadline in samp(rng, range(1, reads + 1), min(6, reads)):
             clock = VClock(); orig = TM.perf_counter; TM.perf_counter = clock
             try:
                 r = C.ctparse(text, ts=to_ts(ts), timeout=deadline, max_stack_depth=depth)
@@ -999,7 +1000,7 @@ def sweep_c14(rng, tier):
     from ctparse.time.corpus import corpus
     P = lambda s: tuple(datetime.strptime(s, "%Y-%m-%dT%H:%M").timetuple()[:5]) + (0,)
     ex = [(t, P(tss)) for _, tss, tests in corpus for t in tests]
-    ex = rng.sample(ex, 400 if tier == "thorough" else 90) + [("22.05.2017 früh", (2018, 3, 7, 12, 43, 0)), ("12-11-2017", (2017, 10, 18, 18, 45, 37)), ("on Monday 20th November", (2017, 10, 18, 18, 45, 37)),
+    ex = samp(rng, ex, min(len(ex), 400 if tier == "thorough" else 90)) + [("22.05.2017 früh", (2018, 3, 7, 12, 43, 0)), ("12-11-2017", (2017, 10, 18, 18, 45, 37)), ("on Monday 20th November", (2017, 10, 18, 18, 45, 37)),
                                                                ("Mon, Jul 31 7:30 AM", (2017, 7, 25, 13, 33, 14)), ("gargelbabel", (2018, 3, 7, 12, 43, 0)), ("", (2018, 3, 7, 12, 43, 0))]
     cases = []
     for t, ts in ex:
@@ -1024,7 +1025,7 @@ def sweep_c14(rng, tier):
     from ctparse import ctparse as _cp, ctparse_gen as _cg
     from ctparse.scorer import RandomScorer as _RS
     from codec import enc_art as _ea
-    for t, ts in rng.sample(ex, 12) + [("at 8", (2018, 3, 7, 12, 43, 0)), ("tomorrow 5pm", (2018, 3, 7, 12, 43, 0))]:
+    for t, ts in samp(rng, ex, 12) + [("at 8", (2018, 3, 7, 12, 43, 0)), ("tomorrow 5pm", (2018, 3, 7, 12, 43, 0))]:
         rr = random.Random(0); shared = _RS(rr)
         for sd in (1, 2, 3, 1):
             try:
@@ -1221,7 +1222,7 @@ def sweep_c15(rng, tier):
     C = sys.modules["ctparse.ctparse"]
     P = lambda s: tuple(datetime.strptime(s, "%Y-%m-%dT%H:%M").timetuple()[:5]) + (0,)
     ex = [(t, P(tss)) for _, tss, tests in corpus for t in tests if len(C._preprocess_string(t)) <= 24]
-    ex = rng.sample(ex, 160 if tier == "thorough" else 45)
+    ex = samp(rng, ex, 160 if tier == "thorough" else 45)
     ts0 = (2020, 11, 25, 12, 0, 0)
     ex += [(t, ts0) for t in ["monday morning 5.12.2020", "freitag abend 4.12.2020", "tomorrow #work 5pm", "5.12.2020 #trip-1 8:30 - 9:30", "9-5", "8 - 9 uhr", "3 days 15-18 Nov", "15-18 Nov für 3 Nächte", "am 5.5. um 8"]]
     cases = []
@@ -1370,7 +1371,7 @@ def sweep_c16(rng, tier):
     from ctparse import ctparse_gen
     mdl = C._DEFAULT_SCORER._model
     inv = mdl.transformer.vocabulary
-    for _, tss, tests in rng.sample(corpus, 40 if tier == "thorough" else 10):
+    for _, tss, tests in samp(rng, corpus, 40 if tier == "thorough" else 10):
         for t in tests[:3]:
             for p in ctparse_gen(t, ts=datetime.strptime(tss, "%Y-%m-%dT%H:%M"), timeout=0, latent_time=False):
                 if p is None: continue
@@ -1409,7 +1410,7 @@ def sweep_c17(rng, tier):
              ("12.12.2020", Time(2020, 12, 12)), ("lunch 12.12.2020 with bob", Time(2020, 12, 12)), ("3 days", Duration(3, DurationUnit.HOURS)), ("before 5pm", Interval(None, Time(hour=17, minute=0)))]
     try:
         ds = load_timeparse_corpus(os.path.join(REPO, "datasets", "timeparse_corpus.json"))
-        extra = rng.sample(list(ds), 60 if tier == "thorough" else 12)
+        extra = samp(rng, list(ds), 60 if tier == "thorough" else 12)
     except Exception:
         extra = []
     for text, gold in golds:
@@ -1489,7 +1490,7 @@ def sweep_c18(rng, tier):
              "DOW": [None, 0, 1, 6], "POD": [None, "morning", "earlymorning", "last", "verylatenight"]}
     keys = list(pools)
     allt = [Time(**dict(zip(keys, combo))) for combo in itertools.product(*[pools[k] for k in keys])]
-    if tier == "quick": allt = rng.sample(allt, 2500) + [Time(), Time(DOW=0), Time(DOW=0, POD="morning"), Time(hour=0, minute=0), Time(year=1, month=1, day=1)]
+    if tier == "quick": allt = samp(rng, allt, 2500) + [Time(), Time(DOW=0), Time(DOW=0, POD="morning"), Time(hour=0, minute=0), Time(year=1, month=1, day=1)]
     vk = lambda t: tuple(getattr(t, k) for k in keys)
 
     def check_value(x, valkey, kind):
@@ -1511,7 +1512,7 @@ def sweep_c18(rng, tier):
         if s in strs and strs[s] != vk(t):
             fails.append({"text": s, "ts": None, "opts": {"a": strs[s], "b": vk(t)}, "expected": "text form injective", "observed": "two different values print the same", "what": "C18 injectivity"})
         strs[s] = vk(t)
-    sample = rng.sample(allt, 220 if tier == "thorough" else 70)
+    sample = samp(rng, allt, 220 if tier == "thorough" else 70)
     for a in sample:
         for b in sample:
             dist["time pairs"] += 1
@@ -1520,7 +1521,7 @@ def sweep_c18(rng, tier):
                 fails.append({"text": a.nb_str() + " == " + b.nb_str(), "ts": None, "opts": {}, "expected": str(vk(a) == vk(b)), "observed": str(eq), "what": "C18 equality"})
             if vk(a) == vk(b) and hash(a) != hash(b):
                 fails.append({"text": a.nb_str(), "ts": None, "opts": {}, "expected": "equal hashes", "observed": "differ", "what": "C18 hash"})
-    ends = [None] + rng.sample(allt, 12)
+    ends = [None] + samp(rng, allt, 12)
     ivs = [Interval(t_from=a, t_to=b) for a in ends for b in ends]
     ik = lambda i: (None if i.t_from is None else vk(i.t_from), None if i.t_to is None else vk(i.t_to))
     for i in ivs: check_value(i, ik(i), "interval values")
@@ -1675,7 +1676,7 @@ print("\n".join(bad))
     # 3. no pattern matches the empty string / yields a zero-length match on probe texts
     probes = ["", " ", "  ", "a", "1", ".", "12", "h", "x y", "montag 5", "5.5.", "-", "am", "uhr", "\t", " ", "5 ", " 5", "früh", "5th of may 2020 8pm to 9pm for 3 days"]
     from ctparse.time.corpus import corpus
-    probes += [t for _, _, tests in rng.sample(corpus, 30) for t in tests[:2]]
+    probes += [t for _, _, tests in samp(rng, corpus, 30) for t in tests[:2]]
     for rid, rx in _regex.items():
         for t in probes:
             dist["pattern x probe"] += 1
@@ -1686,7 +1687,7 @@ print("\n".join(bad))
     fired = set()
     from ctparse import ctparse_gen
     from ctparse.time.auto_corpus import corpus as ac
-    wit = [(t, tss) for _, tss, tests in corpus for t in tests] + [(t, tss) for _, tss, tests in rng.sample(ac, 150) for t in tests[:1]]
+    wit = [(t, tss) for _, tss, tests in corpus for t in tests] + [(t, tss) for _, tss, tests in samp(rng, ac, 150) for t in tests[:1]]
     wit += [(t, "2018-03-07T12:43") for t in ["15-18 Nov für 3 Nächte", "15-18 Nov 3 Nächte", "3 days 15-18 Nov", "monday 5th", "5th of may", "early morning", "very late evening", "end of month", "eoy", "übermorgen", "vorgestern",
                                               "quarter past 3", "half past 8", "halb nach 8", "morning to evening", "friday next week", "late 8-9", "12.12.2020 for 3 days", "midnight", "1230 uhr", "3 o'clock", "now", "before 5pm", "after friday", "12/24", "vom 5.5. bis 7.5.2020"]]
     for t, tss in wit:
